@@ -293,7 +293,7 @@ func runCheck(prop, tier string, o opts) int {
 	}
 	budget := 100 * time.Second
 	if tier == "thorough" {
-		budget = 20 * time.Minute
+		budget = 45 * time.Minute
 	}
 	if v := os.Getenv("SYMGO_HARNESS_BUDGET_S"); v != "" {
 		if n, err := strconv.Atoi(v); err == nil {
